@@ -230,3 +230,136 @@ func runOR4(c *load.Ctx, r *report.RuleResult) {
 }
 
 var _ = strings.TrimSpace
+
+// OR-5: a set that *reports* a cycle when a key is met again must forget the key when the descent
+// returns. A set that is only ever grown reports a cycle for every diamond — two alternatives that
+// lead to the same type — although nothing is cyclic.
+
+func init() {
+	register(&Rule{ID: "OR-5", Min: 2, Run: runOR5,
+		Doc: "cycle detectors follow stack discipline: wherever a function raises an error because a key is already in a string-keyed set, otherwise inserts the key and descends with a call that can reach the function again, the key is deleted from the set after the descent returns — a set that only grows reports recursion for acyclic diamonds (two alternatives leading to the same type)"})
+}
+
+func runOR5(c *load.Ctx, r *report.RuleResult) {
+	cg := c.VTA()
+	reachMemo := map[*ssa.Function]map[*ssa.Function]bool{}
+	reach := func(f *ssa.Function) map[*ssa.Function]bool {
+		if m, ok := reachMemo[f]; ok {
+			return m
+		}
+		m := map[*ssa.Function]bool{}
+		reachMemo[f] = m
+		stack := []*ssa.Function{f}
+		for len(stack) > 0 {
+			x := stack[len(stack)-1]
+			stack = stack[:len(stack)-1]
+			if n := cg.Nodes[x]; n != nil {
+				for _, e := range n.Out {
+					g := e.Callee.Func
+					if g == nil || m[g] || !load.FuncInModule(g) {
+						continue
+					}
+					m[g] = true
+					stack = append(stack, g)
+				}
+			}
+		}
+		return m
+	}
+	panics := func(b *ssa.BasicBlock) bool {
+		// the block, or a straight line from it, ends in a panic
+		for i := 0; i < 4 && b != nil; i++ {
+			if len(b.Instrs) > 0 {
+				if _, ok := b.Instrs[len(b.Instrs)-1].(*ssa.Panic); ok {
+					return true
+				}
+			}
+			if len(b.Succs) != 1 {
+				return false
+			}
+			b = b.Succs[0]
+		}
+		return false
+	}
+	for _, fn := range c.ModuleFunctions() {
+		if load.IsAux(load.FuncPkgRel(fn)) || fn.Synthetic != "" {
+			continue
+		}
+		n := 0
+		for _, b := range fn.Blocks {
+			for _, ins := range b.Instrs {
+				lk, ok := ins.(*ssa.Lookup)
+				if !ok || !lk.CommaOk || isTypeMapLookup(lk) {
+					continue
+				}
+				mt, ok := lk.X.Type().Underlying().(*types.Map)
+				if !ok {
+					continue
+				}
+				if bt, ok := mt.Key().Underlying().(*types.Basic); !ok || bt.Info()&types.IsString == 0 {
+					continue
+				}
+				// the hit branch raises an error
+				hitPanics := false
+				for _, ref := range *lk.Referrers() {
+					ex, ok := ref.(*ssa.Extract)
+					if !ok || ex.Index != 1 {
+						continue
+					}
+					for _, r2 := range *ex.Referrers() {
+						if iff, ok := r2.(*ssa.If); ok && panics(iff.Block().Succs[0]) {
+							hitPanics = true
+						}
+					}
+				}
+				if !hitPanics {
+					continue
+				}
+				// insertion and descent
+				for _, b2 := range fn.Blocks {
+					for _, ins2 := range b2.Instrs {
+						mu, ok := ins2.(*ssa.MapUpdate)
+						if !ok || !sameOrigin(mu.Map, lk.X) || !(mu.Key == lk.Index || sameOrigin(mu.Key, lk.Index)) || !dominatesInstr(lk, mu) {
+							continue
+						}
+						for _, b3 := range fn.Blocks {
+							for _, ins3 := range b3.Instrs {
+								call, ok := ins3.(*ssa.Call)
+								if !ok || !dominatesInstr(mu, call) {
+									continue
+								}
+								sc := call.Call.StaticCallee()
+								if sc == nil || !load.FuncInModule(sc) || (sc != fn && !reach(sc)[fn]) {
+									continue
+								}
+								n++
+								key := fmt.Sprintf("unwind|%s|%s#%d", load.FuncKey(fn), describeValue(lk.X), n)
+								undone := false
+								for _, b4 := range fn.Blocks {
+									for _, ins4 := range b4.Instrs {
+										d, ok := ins4.(*ssa.Call)
+										if !ok {
+											continue
+										}
+										bi, ok := d.Call.Value.(*ssa.Builtin)
+										if !ok || bi.Name() != "delete" || len(d.Call.Args) != 2 {
+											continue
+										}
+										if sameOrigin(d.Call.Args[0], lk.X) && (d.Call.Args[1] == lk.Index || sameOrigin(d.Call.Args[1], lk.Index)) && dominatesInstr(call, d) {
+											undone = true
+										}
+									}
+								}
+								if undone {
+									r.OK(key, c.Pos(call.Pos()), "the key is deleted after the descent through "+sc.Name())
+								} else {
+									r.Bad(key, c.Pos(call.Pos()), fmt.Sprintf("meeting a key of %s again is reported as an error, the key is inserted before the descent through %s, but it is never deleted when the descent returns: two alternatives that lead to the same type (a diamond) are reported as recursion although nothing is cyclic", describeValue(lk.X), sc.Name()))
+								}
+							}
+						}
+					}
+				}
+			}
+		}
+	}
+}
